@@ -340,7 +340,86 @@ def multiblock(part, rows):
     part.outcome(("multiblock", rows[0]["number"] % 3))
 
 
+def near_special(part, which):
+    """
+    a partially occupied site NEAR a special position (its images lie inside the documented 0.01 merge distance): the crystal's
+    unit cell holds one merged atom there, and the POSCAR - written as the first thing done with the object, or after a
+    query - holds the same set of unit-cell atoms; CIF / .res keep the asymmetric unit
+    """
+    from chmpy.crystal import Crystal
+
+    def make():
+        if which == "P-1":
+            return xtal.make_crystal(2, "", (7.1, 8.3, 9.7, 81.0, 97.0, 103.0), ["Cu", "O", "H", "H"],
+                                     np.array([[0.003, 0.002, 0.001], [0.31, 0.27, 0.63], [0.41, 0.33, 0.63], [0.23, 0.35, 0.66]]),
+                                     labels=["Cu1", "O1", "H1", "H2"], occupation=np.array([0.5, 1.0, 1.0, 1.0]), titl="near")
+        if which == "P2/m":
+            return xtal.make_crystal(10, "b", (7.1, 8.3, 9.7, 90.0, 101.0, 90.0), ["Cl", "O"],
+                                     np.array([[0.27, 0.0031, 0.63], [0.11, 0.37, 0.21]]), labels=["Cl1", "O1"], occupation=np.array([0.5, 1.0]), titl="near")
+        from mc.checks import c14
+
+        return c14.near_axis_r3()
+
+    twin = make()
+    uc = twin.unit_cell_atoms()
+    want = np.mod(np.asarray(uc["frac_pos"]), 1.0)
+    wantZ = np.asarray(uc["element"])
+    for order in ("poscar-first", "after-query", "after-molecules"):
+        for route in ("string", "file"):
+            part.ev()
+            part.tr()
+            case = {"kind": "near_special", "which": which}
+            c = make()
+            try:
+                if order == "after-query":
+                    c.unit_cell_atoms()
+                elif order == "after-molecules":
+                    c.unit_cell_molecules()
+                if route == "string":
+                    new = Crystal.from_vasp_string(c.to_poscar_string())
+                else:
+                    d = tempfile.mkdtemp(prefix="c10n_", dir="/dev/shm" if os.path.isdir("/dev/shm") else None)
+                    try:
+                        c.save(os.path.join(d, "POSCAR"))
+                        new = Crystal.load(os.path.join(d, "POSCAR"))
+                    finally:
+                        shutil.rmtree(d, ignore_errors=True)
+                got = np.mod(np.asarray(new.asymmetric_unit.positions), 1.0)
+                gotZ = np.asarray(new.asymmetric_unit.atomic_numbers)
+            except Exception as e:
+                part.fail("near-special:raise:%s" % order, "POSCAR round trip of the %s structure (%s, %s) raised %r" % (which, order, route, e), case)
+                continue
+            ok = len(got) == len(want)
+            if ok:
+                tree = cKDTree(np.mod(want, 1.0), boxsize=1.0 + 1e-15)
+                g2 = got.copy()
+                g2[g2 >= 1.0] = 0.0
+                dist, idx = tree.query(g2)
+                ok = dist.max() < 2e-8 and len(set(idx.tolist())) == len(want) and np.array_equal(wantZ[idx], gotZ)
+            if not ok:
+                part.fail("near-special:poscar-atoms:%s" % order, "POSCAR (%s, %s) of the %s structure with a half-occupied site near a special position holds %d atoms, the crystal's unit cell has %d"
+                          % (order, route, which, len(got), len(want)), case)
+            part.outcome(("near_special", which, order, route, len(got)))
+    for fmt in ("cif", "res"):
+        part.ev()
+        part.tr()
+        c = make()
+        ps = xtal.public_state(c)
+        try:
+            new = Crystal.from_cif_string(c.to_cif_string()) if fmt == "cif" else Crystal.from_shelx_string(c.to_shelx_string())
+            ns = xtal.public_state(new)
+            if ns["Z"] != ps["Z"] or np.abs(ns["pos"] - ps["pos"]).max() > 5e-13 or len(new.unit_cell_atoms()["element"]) != len(want):
+                part.fail("near-special:%s" % fmt, "%s round trip of the %s structure changes the asymmetric unit or the number of unit-cell atoms" % (fmt, which), {"kind": "near_special", "which": which})
+        except Exception as e:
+            part.fail("near-special:raise:%s" % fmt, "%s round trip of the %s structure raised %r" % (fmt, which, e), {"kind": "near_special", "which": which})
+    part.nstates(1)
+
+
 def worker(part, rows, tier):
+    if rows and isinstance(rows[0], str):
+        for which in rows:
+            near_special(part, which)
+        return
     tmpdir = tempfile.mkdtemp(prefix="c10_", dir=os.environ.get("VERIF_SCRATCH", "/dev/shm" if os.path.isdir("/dev/shm") else None))
     try:
         for row in rows:
@@ -370,11 +449,15 @@ def run(ctx):
     ctx.assumptions = ["precision: CIF cell 1e-9, .res cell 5e-7 (6 written decimals), coordinates 5e-13 (12 decimals), POSCAR 5e-9 lattice / 2e-8 positions",
                        "space group compared by International Tables number and operation set (not by choice label)"]
     order = sorted(table, key=lambda r: -len(r["symops"]))
-    ctx.pmap(worker, chunked(order, 4), tier=ctx.tier)
+    ctx.bounds["near_special_structures"] = "P-1 / P2/m / R3 with a partially occupied site inside the merge distance of its own images x {POSCAR first, after a query, after molecules} x {string, file}"
+    ctx.pmap(worker, list(chunked(order, 4)) + [["P-1"], ["P2/m"], ["R3"]], tier=ctx.tier)
 
 
 def replay(ctx, case):
     table = symm.load_table()
+    if case.get("kind") == "near_special":
+        near_special(ctx, case["which"])
+        return
     if case.get("kind") == "multiblock":
         rows = [r for (n, ch) in case["settings"] for r in table if r["number"] == n and r["choice"] == ch]
         multiblock(ctx, rows)
